@@ -38,6 +38,12 @@ def obligations():
                      params={"kernel": "dist_mic_triclinic_t", "cell": c}, tiers=("quick", "thorough") if c in ("triclinic_a", "cubic") else ("thorough",)))
         o.append(Obl(f"C05.dist_mic_triclinic.M3.{c}", "py", H, "check_kernel", ["geometry.cpp:dist_mic_triclinic"], f"cell {c}; images within +-3", "same with M=3", 1200,
                      params={"kernel": "dist_mic_triclinic", "cell": c, "M": 3}, tiers=("thorough",)))
+    # per-frame cells (NPT): frame 1 of a 2-frame call uses ITS OWN cell (frame 0 concrete, in a different cell)
+    for k, c, c0 in (("dist_mic", "ortho_ratio6", "cubic"), ("dist_mic", "ortho_1_2_3", "ortho_ratio6"), ("dist_mic_triclinic", "triclinic_a", "monoclinic70")):
+        o.append(Obl(f"C05.{k}.frame1.{c}", "py", H, "check_kernel", [f"geometry.cpp:{k}"], f"2-frame call: frame 0 concrete in cell {c0}, frame 1 symbolic in cell {c}",
+                     "frame 1 is wrapped with frame 1's cell: lattice shift, minimum image, distance = |v|", 600, params={"kernel": k, "cell": c, "second_frame": True, "cell0": c0}))
+    o.append(Obl("C05.python.dispatch", "xh", "harness.c05_py", "dispatch", ["mdtraj.geometry.distance.compute_distances", "compute_distances_core", "compute_displacements", "compute_distances_t"],
+                 "3 frames, each orthorhombic or skewed (symbolic), opt, periodic, cell present (symbolic)", "the orthorhombic kernel is chosen only if EVERY frame is orthorhombic; per-frame transposed box, coordinates and pairs unchanged; plain kernels otherwise", 300))
     return o
 
 
@@ -45,5 +51,5 @@ MANIFEST_INFO = {
     "engine": "llsym",
     "technique": "symbolic interpretation of the kernels' LLVM IR (clang -O2) with symbolic coordinates and concrete cells; guarded polynomials + monomial naming -> z3 QF_LIRA",
     "text": "For each kernel and catalogue cell the solver proves, for ALL coordinates within +-50 cells, that the reported displacement is the plain difference plus an integer combination of the input cell vectors, that no image within +-2 (thorough: +-3) cells is shorter, and that the distance is its norm.",
-    "note": "Real-arithmetic model of float32; concrete cells only; SIMD variants assumed equivalent to the scalar fvec4; Python reference path and dispatch: see C05 evidence 'out' until encoded.",
+    "note": "Real-arithmetic model of float32; concrete cells only; SIMD variants assumed equivalent to the scalar fvec4; the numpy reference path (opt=False) is only checked for dispatch, not arithmetic.",
 }
